@@ -39,6 +39,63 @@ func (e Env) clone() Env {
 
 func (x *X) boolLocal(e ast.Expr) types.Object { return BoolLocal(x.Info, e) }
 
+// ErrLocal returns the error-typed local variable denoted by e, or nil. In an Env its value
+// means "is nil".
+func ErrLocal(info *types.Info, e ast.Expr) types.Object {
+	id, ok := ast.Unparen(e).(*ast.Ident)
+	if !ok {
+		return nil
+	}
+	v, ok := core.ObjOf(info, id).(*types.Var)
+	if !ok || v.IsField() || v.Pkg() == nil || v.Parent() == v.Pkg().Scope() || !cfgq.IsErrorType(v.Type()) {
+		return nil
+	}
+	return v
+}
+
+// nilTest: e is `v == nil` / `v != nil` for an error local v; eq tells which.
+func (x *X) nilTest(e ast.Expr) (types.Object, bool, bool) {
+	be, ok := ast.Unparen(e).(*ast.BinaryExpr)
+	if !ok || be.Op != token.EQL && be.Op != token.NEQ {
+		return nil, false, false
+	}
+	var o types.Object
+	switch {
+	case core.IsNil(x.Info, be.Y):
+		o = ErrLocal(x.Info, be.X)
+	case core.IsNil(x.Info, be.X):
+		o = ErrLocal(x.Info, be.Y)
+	}
+	return o, be.Op == token.EQL, o != nil
+}
+
+// errValue: 1 the expression is a nil error, -1 it is certainly non-nil (a fresh error value), 0 unknown.
+func (x *X) errValue(e ast.Expr, env Env) int {
+	e = ast.Unparen(e)
+	if core.IsNil(x.Info, e) {
+		return 1
+	}
+	if o := ErrLocal(x.Info, e); o != nil {
+		if v, ok := env[o]; ok {
+			if v {
+				return 1
+			}
+			return -1
+		}
+		return 0
+	}
+	if call, ok := e.(*ast.CallExpr); ok {
+		if f := core.CalleeFunc(x.Info, call); f != nil && f.Pkg() != nil {
+			switch {
+			case f.Pkg().Path() == "fmt" && f.Name() == "Errorf", f.Pkg().Path() == "errors" && f.Name() == "New",
+				strings.HasSuffix(f.Pkg().Path(), "/libs/errors") && (f.Name() == "New" || f.Name() == "Errorf" || f.Name() == "Trace"):
+				return -1
+			}
+		}
+	}
+	return 0
+}
+
 // BoolLocal returns the boolean local variable denoted by e, or nil.
 func BoolLocal(info *types.Info, e ast.Expr) types.Object {
 	id, ok := ast.Unparen(e).(*ast.Ident)
@@ -58,6 +115,11 @@ func BoolLocal(info *types.Info, e ast.Expr) types.Object {
 // eval3 evaluates cond under env: 1 true, -1 false, 0 unknown.
 func (x *X) eval3(e ast.Expr, env Env) int {
 	e = ast.Unparen(e)
+	if x.assume != nil {
+		if v := x.assume(e); v != 0 {
+			return v
+		}
+	}
 	if bv, ok := BoolConst(x.Info, e); ok {
 		if bv {
 			return 1
@@ -67,6 +129,15 @@ func (x *X) eval3(e ast.Expr, env Env) int {
 	if o := x.boolLocal(e); o != nil {
 		if v, ok := env[o]; ok {
 			if v {
+				return 1
+			}
+			return -1
+		}
+		return 0
+	}
+	if o, eq, ok := x.nilTest(e); ok {
+		if v, known := env[o]; known {
+			if v == eq {
 				return 1
 			}
 			return -1
@@ -107,9 +178,80 @@ func (x *X) eval3(e ast.Expr, env Env) int {
 	return 0
 }
 
+// refine records in env what the outcome val of cond implies for the tracked locals, including
+// what follows from the parts whose value is already known: (a && b) false with a known true
+// means b false; (a || b) true with a known false means b true.
+func (x *X) refine(cond ast.Expr, val bool, env Env) {
+	cond = ast.Unparen(cond)
+	switch c := cond.(type) {
+	case *ast.UnaryExpr:
+		if c.Op == token.NOT {
+			x.refine(c.X, !val, env)
+			return
+		}
+	case *ast.BinaryExpr:
+		switch c.Op {
+		case token.LAND:
+			if val {
+				x.refine(c.X, true, env)
+				x.refine(c.Y, true, env)
+			} else if x.eval3(c.X, env) == 1 {
+				x.refine(c.Y, false, env)
+			} else if x.eval3(c.Y, env) == 1 {
+				x.refine(c.X, false, env)
+			}
+			return
+		case token.LOR:
+			if !val {
+				x.refine(c.X, false, env)
+				x.refine(c.Y, false, env)
+			} else if x.eval3(c.X, env) == -1 {
+				x.refine(c.Y, true, env)
+			} else if x.eval3(c.Y, env) == -1 {
+				x.refine(c.X, true, env)
+			}
+			return
+		case token.EQL, token.NEQ:
+			if bv, ok := BoolConst(x.Info, c.Y); ok {
+				x.refine(c.X, val == ((c.Op == token.EQL) == bv), env)
+				return
+			}
+			if bv, ok := BoolConst(x.Info, c.X); ok {
+				x.refine(c.Y, val == ((c.Op == token.EQL) == bv), env)
+				return
+			}
+		}
+	case *ast.Ident:
+		if rhs := x.Expand(c); rhs != nil {
+			x.refine(rhs, val, env)
+		}
+	}
+	if o := x.boolLocal(cond); o != nil {
+		env[o] = val
+	}
+	if o, eq, ok := x.nilTest(cond); ok {
+		env[o] = eq == val
+	}
+}
+
 // step applies the effect of executing node n on env.
 func (x *X) step(n ast.Node, env Env) {
 	assign := func(l ast.Expr, r ast.Expr) {
+		if eo := ErrLocal(x.Info, l); eo != nil {
+			if r == nil {
+				delete(env, eo)
+				return
+			}
+			switch x.errValue(r, env) {
+			case 1:
+				env[eo] = true
+			case -1:
+				env[eo] = false
+			default:
+				delete(env, eo)
+			}
+			return
+		}
 		o := x.boolLocal(l)
 		if o == nil {
 			return
@@ -147,6 +289,16 @@ func (x *X) step(n ast.Node, env Env) {
 				continue
 			}
 			for i, name := range vs.Names {
+				if eo := ErrLocal(x.Info, name); eo != nil {
+					if len(vs.Values) == 0 {
+						env[eo] = true // var err error: nil
+					} else if len(vs.Values) == len(vs.Names) {
+						assign(name, vs.Values[i])
+					} else {
+						delete(env, eo)
+					}
+					continue
+				}
 				o := x.boolLocal(name)
 				if o == nil {
 					continue
@@ -166,6 +318,9 @@ func (x *X) step(n ast.Node, env Env) {
 
 // ReachQuery is a flag-tracking path search.
 type ReachQuery struct {
+	// Assume gives the value of an atomic condition that is taken for granted on the whole path
+	// (1 true, -1 false, 0 not assumed): "is the target reachable under the assumption depth == 0?"
+	Assume   func(ast.Expr) int
 	From     cfgq.Point // search starts after this point
 	FromSucc int        // when >= 0: start on successor FromSucc of From.B instead
 	Env      Env
@@ -178,6 +333,8 @@ type ReachQuery struct {
 // Reach returns a witness path to a target node on which the tracked boolean
 // locals never contradict the branch decisions taken, or nil.
 func (x *X) Reach(q ReachQuery) []string {
+	x.assume = q.Assume
+	defer func() { x.assume = nil }()
 	type state struct {
 		b    *cfg.Block
 		i    int
@@ -200,6 +357,9 @@ func (x *X) Reach(q ReachQuery) []string {
 		for _, f := range x.EdgeFacts(q.From.B, q.FromSucc) {
 			if o := x.boolLocal(f.Expr); o != nil {
 				env0[o] = f.Val
+			}
+			if o, eq, ok := x.nilTest(f.Expr); ok {
+				env0[o] = eq == f.Val
 			}
 		}
 		push(q.From.B.Succs[q.FromSucc], 0, env0, nil, "")
@@ -263,11 +423,7 @@ func (x *X) Reach(q ReachQuery) []string {
 					continue
 				}
 				e2 = env.clone()
-				for _, f := range x.Facts(cond, si == 0) {
-					if o := x.boolLocal(f.Expr); o != nil {
-						e2[o] = f.Val
-					}
-				}
+				x.refine(cond, si == 0, e2)
 				note = fmt.Sprintf("%s is %v", core.NodeString(x.G.Fset, cond), si == 0)
 			}
 			push(t, 0, e2, s, note)
@@ -353,6 +509,19 @@ func SingleDef(info *types.Info, root ast.Node, e ast.Expr) (Def, bool) {
 		return Def{}, false
 	}
 	ds := DefsOf(info, root, v)
+	if len(ds) > 1 {
+		// `var x T` without a value followed by exactly one assignment
+		var real []Def
+		for _, d := range ds {
+			if _, isDecl := d.Stmt.(*ast.ValueSpec); isDecl && d.Rhs == nil {
+				continue
+			}
+			real = append(real, d)
+		}
+		if len(real) == 1 && len(ds) == 2 {
+			return real[0], true
+		}
+	}
 	if len(ds) != 1 {
 		return Def{}, false
 	}
@@ -416,19 +585,92 @@ func IsConfField(info *types.Info, e ast.Expr, field string) (string, bool) {
 
 // Bodies lists the body of fn and of all function literals nested in it.
 type Body struct {
-	Name string
-	Root ast.Node // *ast.BlockStmt of the declaration or *ast.FuncLit
-	G    *cfgq.Graph
+	Name  string
+	Root  ast.Node // *ast.BlockStmt of the declaration or *ast.FuncLit
+	G     *cfgq.Graph
+	Outer ast.Node // body of the enclosing declaration: where the free variables of a literal are defined
+	View  *View    // set by ViewBodies
+	// Params: the parameters (and receiver) when the body is a helper called from the anchored
+	// region: a sink on a parameter belongs to the call site, not to the helper.
+	Params map[types.Object]bool
+}
+
+// ViewBodies returns the region anchored at fn as a list of bodies, each with the same-package
+// helpers inlined (ViewOf): the declaration, every function literal nested in it, and - because a
+// worker body or a guarded block may have been moved into a method that is started with `go`, kept
+// apart because it defers, or called from a closure - every same-package function called from these
+// bodies that could not be inlined (two levels). opaque names the anchored functions of other
+// sites, which are not part of this region.
+func ViewBodies(p *core.Program, fn *core.Fn, tag string, opaque func(*types.Func) bool) []Body {
+	info := fn.Pkg.TypesInfo
+	var out []Body
+	seen := map[*ast.BlockStmt]bool{}
+	var add func(name string, v *View, outer ast.Node, depth int)
+	add = func(name string, v *View, outer ast.Node, depth int) {
+		if outer == nil {
+			outer = v.Body
+		}
+		out = append(out, Body{Name: name, Root: v.Body, G: v.G, Outer: outer, View: v})
+		k := 0
+		var lits []*ast.FuncLit
+		core.Inspect(v.Body, func(n ast.Node) bool { return true })
+		ast.Inspect(v.Body, func(n ast.Node) bool {
+			if fl, ok := n.(*ast.FuncLit); ok {
+				lits = append(lits, fl)
+				return false // nested literals are found when this one is added
+			}
+			return true
+		})
+		for _, fl := range lits {
+			k++
+			add(fmt.Sprintf("%s$%d", name, k), ViewOfLit(p, info, fl, tag, opaque), outer, depth)
+		}
+		if depth == 0 {
+			return
+		}
+		for _, call := range core.Calls(v.Body, info, func(*ast.CallExpr, types.Object) bool { return true }) {
+			f := core.CalleeFunc(info, call)
+			if f == nil || opaque != nil && opaque(f) {
+				continue
+			}
+			h := p.FnOf(f)
+			if h == nil || h.Decl.Body == nil || h.Pkg.TypesInfo != info || seen[h.Decl.Body] || h.Obj == fn.Obj {
+				continue
+			}
+			seen[h.Decl.Body] = true
+			first := len(out)
+			add(h.Decl.Name.Name, ViewOf(p, h, tag, opaque), nil, depth-1)
+			params := map[types.Object]bool{}
+			for _, fl := range h.Decl.Type.Params.List {
+				for _, n := range fl.Names {
+					params[info.Defs[n]] = true
+				}
+			}
+			if h.Decl.Recv != nil {
+				for _, fl := range h.Decl.Recv.List {
+					for _, n := range fl.Names {
+						params[info.Defs[n]] = true
+					}
+				}
+			}
+			if first < len(out) {
+				out[first].Params = params
+			}
+		}
+	}
+	seen[fn.Decl.Body] = true
+	add(fn.Decl.Name.Name, ViewOf(p, fn, tag, opaque), nil, 2)
+	return out
 }
 
 // BodiesOf returns the declaration body and every nested literal with graphs.
 func BodiesOf(p *core.Program, fn *core.Fn) []Body {
-	out := []Body{{Name: fn.Decl.Name.Name, Root: fn.Decl.Body, G: cfgq.Of(p, fn)}}
+	out := []Body{{Name: fn.Decl.Name.Name, Root: fn.Decl.Body, G: cfgq.Of(p, fn), Outer: fn.Decl.Body}}
 	k := 0
 	ast.Inspect(fn.Decl.Body, func(n ast.Node) bool {
 		if fl, ok := n.(*ast.FuncLit); ok {
 			k++
-			out = append(out, Body{Name: fmt.Sprintf("%s$%d", fn.Decl.Name.Name, k), Root: fl, G: cfgq.OfLit(p, fn.Pkg.TypesInfo, fl)})
+			out = append(out, Body{Name: fmt.Sprintf("%s$%d", fn.Decl.Name.Name, k), Root: fl, G: cfgq.OfLit(p, fn.Pkg.TypesInfo, fl), Outer: fn.Decl.Body})
 		}
 		return true
 	})
@@ -450,4 +692,82 @@ func BreaksLoop(body *ast.BlockStmt, br *ast.BranchStmt) bool {
 		}
 	}
 	return len(path) > 0
+}
+
+// LoopElem abstracts the loop form of a scan over a list: `for _, x := range l` (element x),
+// `for i := range l` and `for i := 0; i < len(l); i++` (element l[i]). It returns the list and a
+// test for "this expression is the current element".
+func LoopElem(info *types.Info, loop ast.Stmt) (ast.Expr, func(ast.Expr) bool) {
+	same := func(a, b ast.Expr) bool { return a != nil && b != nil && sameExpr(info, a, b) }
+	indexed := func(list ast.Expr, idx ast.Expr) func(ast.Expr) bool {
+		return func(e ast.Expr) bool {
+			ix, ok := ast.Unparen(e).(*ast.IndexExpr)
+			return ok && same(ix.X, list) && same(ix.Index, idx)
+		}
+	}
+	switch s := loop.(type) {
+	case *ast.RangeStmt:
+		if s.Value != nil {
+			byIdx := indexed(s.X, s.Key)
+			return s.X, func(e ast.Expr) bool { return same(e, s.Value) || s.Key != nil && byIdx(e) }
+		}
+		if s.Key != nil {
+			return s.X, indexed(s.X, s.Key)
+		}
+	case *ast.ForStmt:
+		// for i := 0; i < len(l); i++
+		if b := matchLenBound(info, s.Cond); b != nil {
+			return b[1], indexed(b[1], b[0])
+		}
+	}
+	return nil, func(ast.Expr) bool { return false }
+}
+
+// SameExpr: structurally equal expressions over the same objects.
+func SameExpr(info *types.Info, a, b ast.Expr) bool { return sameExpr(info, a, b) }
+
+// sameExpr: structurally equal expressions over the same objects.
+func sameExpr(info *types.Info, a, b ast.Expr) bool {
+	a, b = ast.Unparen(a), ast.Unparen(b)
+	switch x := a.(type) {
+	case *ast.Ident:
+		y, ok := b.(*ast.Ident)
+		return ok && core.ObjOf(info, x) != nil && core.ObjOf(info, x) == core.ObjOf(info, y)
+	case *ast.SelectorExpr:
+		y, ok := b.(*ast.SelectorExpr)
+		return ok && x.Sel.Name == y.Sel.Name && sameExpr(info, x.X, y.X)
+	case *ast.IndexExpr:
+		y, ok := b.(*ast.IndexExpr)
+		return ok && sameExpr(info, x.X, y.X) && sameExpr(info, x.Index, y.Index)
+	}
+	return false
+}
+
+// matchLenBound matches `i < len(l)` (also `len(l) > i`) and returns [i, l].
+func matchLenBound(info *types.Info, cond ast.Expr) []ast.Expr {
+	be, ok := ast.Unparen(cond).(*ast.BinaryExpr)
+	if !ok {
+		return nil
+	}
+	lenOf := func(e ast.Expr) ast.Expr {
+		call, ok := ast.Unparen(e).(*ast.CallExpr)
+		if !ok || len(call.Args) != 1 {
+			return nil
+		}
+		if id, ok := call.Fun.(*ast.Ident); !ok || id.Name != "len" {
+			return nil
+		}
+		return call.Args[0]
+	}
+	switch be.Op {
+	case token.LSS:
+		if l := lenOf(be.Y); l != nil {
+			return []ast.Expr{be.X, l}
+		}
+	case token.GTR:
+		if l := lenOf(be.X); l != nil {
+			return []ast.Expr{be.Y, l}
+		}
+	}
+	return nil
 }
